@@ -109,7 +109,7 @@ Definition inV (p : pc) : bool := match p with PValidated | PWritten | PFenced =
 Definition inW (p : pc) : bool := match p with PWritten | PFenced => true | _ => false end.
 Definition inCS (p : pc) : bool :=
   match p with PLocked | PValidated | PWritten | PFenced | PFlipped => true | _ => false end.
-Definition flipped (p : pc) : bool := match p with PFlipped | PDone Success => true | _ => false end.
+Definition flipped (p : pc) : bool := match p with PFlipped | PDone Success | PDone AbortedPost => true | _ => false end.
 
 Definition comm (H : list (vid * aid)) : list vid := 0%nat :: map fst H.
 Definition committed (w : world) : list vid := comm (w_hist w).
@@ -230,7 +230,7 @@ Proof.
   intros Snd I H. unfold step in H.
   remember (e_actor e) as a eqn:Ea. remember (w_actors w a) as s eqn:Es.
   pose proof (I_actor c w I a) as Ia. rewrite <- Es in Ia.
-  destruct (e_kind e) as [v|ok| |v ok|now|ok|ok| ].
+  destruct (e_kind e) as [v|ok| |v ok|now|ok|ok| | | ].
   - (* EBegin *)
     destruct (a_pc s) eqn:PC; try discriminate.
     destruct (Nat.eqb_spec v (w_ptr w)) as [->|]; [|discriminate].
@@ -378,6 +378,16 @@ Proof.
       * lock_frame I a.
         -- destruct (Nat.ltb (S (a_attempt s)) (a_maxr s)); simpl in Hb; discriminate.
         -- rewrite (I_lock c w I LK b Hb). destruct (Nat.eqb_spec a b); [congruence|reflexivity].
+  - (* EAbort: an exception / interrupt escapes; the lock is released by `finally` *)
+    destruct (a_pc s) eqn:PC; try discriminate; inversion H; subst w'; clear H; apply inv_frame; auto;
+      try (eapply ainv_pc; eauto; simpl; rewrite ?PC; auto; discriminate);
+      try (simpl; discriminate);
+      (lock_frame I a; rewrite (I_lock c w I LK b Hb); destruct (Nat.eqb_spec a b); [congruence|reflexivity]).
+  - (* ECrash: the process dies; the kernel drops an exclusive flock *)
+    destruct (a_pc s) eqn:PC; try discriminate; inversion H; subst w'; clear H; apply inv_frame; auto;
+      try (eapply ainv_pc; eauto; simpl; rewrite ?PC; auto; discriminate);
+      try (simpl; discriminate);
+      (lock_frame I a; rewrite LK; rewrite (I_lock c w I LK b Hb); destruct (Nat.eqb_spec a b); [congruence|reflexivity]).
 Qed.
 
 (* ------------------------------------------------------------------ the flip replaces exactly the validated version *)
@@ -390,7 +400,7 @@ Lemma step_repl_shape c w e w' : step c w e = Some w' ->
       /\ (if cas c then Nat.eqb (w_ptr w) (a_etag (w_actors w (e_actor e))) else true) = true).
 Proof.
   intro H. unfold step in H.
-  destruct (e_kind e) as [v|ok| |v ok|now|ok|ok| ]; destruct (a_pc (w_actors w (e_actor e))) eqn:PC; try discriminate;
+  destruct (e_kind e) as [v|ok| |v ok|now|ok|ok| | | ]; destruct (a_pc (w_actors w (e_actor e))) eqn:PC; try discriminate;
     try (destruct ok);
     repeat match goal with
            | H : (if ?b then _ else _) = Some _ |- _ => destruct b eqn:?; try discriminate
@@ -508,7 +518,7 @@ Proof.
   intros H P N. unfold step in H.
   destruct (Nat.eq_dec (e_actor e) a) as [E|NE].
   - split; [exact E|]. subst a.
-    destruct (e_kind e) as [v|ok| |v ok|now|ok|ok| ]; destruct (a_pc (w_actors w (e_actor e))) eqn:PC; try discriminate;
+    destruct (e_kind e) as [v|ok| |v ok|now|ok|ok| | | ]; destruct (a_pc (w_actors w (e_actor e))) eqn:PC; try discriminate;
       try (destruct ok);
       repeat match goal with
              | H : (if ?b then _ else _) = Some _ |- _ => destruct b eqn:?; try discriminate
@@ -518,7 +528,7 @@ Proof.
            try discriminate; try congruence; try reflexivity);
       try (destruct (Nat.ltb _ _) in P; simpl in P; discriminate).
   - exfalso. apply N.
-    destruct (e_kind e) as [v|ok| |v ok|now|ok|ok| ]; destruct (a_pc (w_actors w (e_actor e))) eqn:PC; try discriminate;
+    destruct (e_kind e) as [v|ok| |v ok|now|ok|ok| | | ]; destruct (a_pc (w_actors w (e_actor e))) eqn:PC; try discriminate;
       try (destruct ok);
       repeat match goal with
              | H : (if ?b then _ else _) = Some _ |- _ => destruct b eqn:?; try discriminate
@@ -533,4 +543,34 @@ Lemma conflict_release_not_success c w e w' :
 Proof.
   intros EK PC H. unfold step in H. rewrite EK, PC in H. inversion H; subst w'. simpl. rewrite upd_same.
   destruct (Nat.ltb _ _); simpl; auto.
+Qed.
+
+(* ------------------------------------------------------------------ what one step can change (used by FaultProofs) *)
+Lemma step_cases c w e w' : step c w e = Some w' ->
+  let a := e_actor e in let s := w_actors w a in let s' := w_actors w' a in
+  (forall b, b <> a -> w_actors w' b = w_actors w b)
+  /\ ( (exists now, e_kind e = EMetaW now /\ a_pc s = PValidated /\ w_files w' = w_files w ++ [new_meta w s now]
+                    /\ w_hist w' = w_hist w /\ a_pc s' = PWritten /\ a_new s' = length (w_files w) /\ a_base s' = a_base s)
+    \/ (e_kind e = EFlip true /\ a_pc s = PFenced /\ w_files w' = w_files w /\ w_hist w' = w_hist w ++ [(a_new s, a)]
+        /\ a_pc s' = PFlipped)
+    \/ (w_files w' = w_files w /\ w_hist w' = w_hist w /\ a_new s' = a_new s
+        /\ (inW (a_pc s') = true -> inW (a_pc s) = true) /\ flipped (a_pc s') = flipped (a_pc s)
+        /\ (forall o, a_pc s = PDone o -> a_pc s' = PDone o)) ).
+Proof.
+  intro H. unfold step in H. cbv zeta.
+  destruct (e_kind e) as [v|ok| |v ok|now|ok|ok| | | ]; destruct (a_pc (w_actors w (e_actor e))) eqn:PC; try discriminate;
+    try (destruct ok);
+    repeat match goal with
+           | H : (if ?b then _ else _) = Some _ |- _ => destruct b eqn:?; try discriminate
+           | H : match lockkind c with _ => _ end = Some _ |- _ => destruct (lockkind c); try discriminate
+           end;
+    inversion H; subst w'; clear H; simpl;
+    (split; [intros b NE; rewrite ?upd_other by exact NE; reflexivity|]);
+    rewrite ?upd_same; simpl;
+    try (right; right; rewrite ?PC; simpl; repeat split; auto; try discriminate;
+         try (destruct (Nat.ltb _ _); simpl; auto; discriminate); fail);
+    try (right; left; repeat split; auto; fail);
+    try (left; eexists; repeat split; eauto; fail).
+  all: try (right; right; rewrite ?PC; repeat split; auto; intros; try discriminate;
+            destruct (Nat.ltb _ _); simpl in *; auto; discriminate).
 Qed.
